@@ -43,9 +43,16 @@ structure Cfgable where
   allow : List String := []
   deny : List String := []
   isMethod : Bool := false
+  /-- the signature at the end of the `__wrapped__` chain when the registered callable is an ordinary
+      (`functools.wraps`) decorator around another function: parameter *names* are looked up there
+      (`_might_have_parameter` unwraps), calls are bound against the callable's own signature `sig` -/
+  innerSig : Option Sig := none
 deriving Repr, Inhabited
 
 namespace Cfgable
+/-- `_might_have_parameter` -/
+def mightHave (c : Cfgable) (name : String) : Bool := (c.innerSig.getD c.sig).mightHave name
+
 /-- is `name` configurable under the allow/deny lists -/
 def listed (c : Cfgable) (name : String) : Bool :=
   !(!c.allow.isEmpty && !c.allow.contains name) && !(!c.deny.isEmpty && c.deny.contains name)
